@@ -32,6 +32,147 @@ type hashSite struct {
 	// putHelper: the site is the call (create) of a helper that hashes and stores the bytes it is given and returns the
 	// descriptor naming them; ‘stored’ is then the nil edge of the helper's error
 	putHelper *ssa.Function
+	// stepCreate: create is the call of a store step (see storeStepOf) that creates the session with the digest it is given,
+	// writes the bytes it is given and closes: ‘stored’ is the nil edge of its error.  writeArg: for a write that is the
+	// call of a store step, the bytes argument of that call.
+	stepCreate bool
+	writeArg   map[ssa.CallInstruction]ssa.Value
+}
+
+// storeStep: a function of the module that stores bytes it is given: into a session it is given (sessParam ≥ 0), or into
+// one it creates with the digest it is given (digParam ≥ 0).  It qualifies when every Write on that session writes the
+// bytes parameter and every return with a nil error has passed the ok-edge of Close on the session or the ‘already
+// exists’ edge of the creation.
+type storeStep struct {
+	fn                              *ssa.Function
+	sessParam, digParam, bytesParam int
+}
+
+func storeStepOf(c *core.Ctx, r *Roles, h *ssa.Function) *storeStep {
+	memo := core.Memo(c, "storesteps", func() map[*ssa.Function]*storeStep { return map[*ssa.Function]*storeStep{} })
+	if v, ok := memo[h]; ok {
+		return v
+	}
+	memo[h] = nil
+	if h == nil || h.Parent() != nil || len(h.Blocks) == 0 || !strings.HasPrefix(core.FuncPkgPath(h), c.P.Module) {
+		return nil
+	}
+	res := h.Signature.Results()
+	if res.Len() == 0 || !an.IsErrorType(res.At(res.Len()-1).Type()) {
+		return nil
+	}
+	st := &storeStep{fn: h, sessParam: -1, digParam: -1, bytesParam: -1}
+	for i, p := range h.Params {
+		if sl, ok := p.Type().Underlying().(*types.Slice); ok {
+			if b, ok := sl.Elem().Underlying().(*types.Basic); ok && b.Kind() == types.Byte {
+				if st.bytesParam >= 0 {
+					return nil
+				}
+				st.bytesParam = i
+			}
+		}
+	}
+	if st.bytesParam < 0 {
+		return nil
+	}
+	var sess ssa.Value
+	var create *ssa.Call
+	var closes []*ssa.Call
+	okW, nW := true, 0
+	an.Calls(h, func(call ssa.CallInstruction) {
+		if _, isDefer := call.(*ssa.Defer); isDefer {
+			return
+		}
+		if !r.IsAPI(call, "BlobCreator", "Write", "Close") {
+			return
+		}
+		so := an.Origin(call.Common().Value)
+		if sess == nil {
+			sess = so
+		} else if sess != so {
+			okW = false
+		}
+		if r.IsAPI(call, "BlobCreator", "Close") {
+			if cc, ok := call.(*ssa.Call); ok {
+				closes = append(closes, cc)
+			}
+			return
+		}
+		nW++
+		_, args := an.CallArgs(call)
+		if len(args) == 0 || an.Origin(args[0]) != ssa.Value(h.Params[st.bytesParam]) {
+			okW = false
+		}
+	})
+	if !okW || nW == 0 || len(closes) == 0 || sess == nil {
+		return nil
+	}
+	if p, isParam := sess.(*ssa.Parameter); isParam {
+		for i, q := range h.Params {
+			if q == p {
+				st.sessParam = i
+			}
+		}
+	} else if cr, idx := an.CallOf(sess); cr != nil && idx <= 0 && isBlobCreate(r, cr) {
+		create = cr
+		ds, known := withDigestArgs(r, cr)
+		if !known || len(ds) != 1 {
+			return nil
+		}
+		if p, isParam := an.Origin(ds[0]).(*ssa.Parameter); isParam {
+			for i, q := range h.Params {
+				if q == p {
+					st.digParam = i
+				}
+			}
+		}
+	}
+	if st.sessParam < 0 && st.digParam < 0 {
+		return nil
+	}
+	// every nil return has passed ‘closed without error’ or ‘already exists’
+	isClose := map[ssa.Value]bool{}
+	for _, cl := range closes {
+		isClose[cl] = true
+	}
+	var createErr ssa.Value
+	if create != nil {
+		createErr = an.ErrResult(create)
+	}
+	bad := false
+	an.Paths(an.PathSpec[bool]{Fn: h, Init: false,
+		Instr: func(stored bool, in ssa.Instruction) []bool {
+			if ret, ok := in.(*ssa.Return); ok && retErrNil(ret) && !stored {
+				bad = true
+			}
+			return []bool{stored}
+		},
+		Edge: func(stored bool, from *ssa.BasicBlock, succ int) (bool, bool) {
+			ifi := an.BlockIf(from)
+			if ifi == nil {
+				return stored, true
+			}
+			if x, nilSucc, ok := an.NilTest(ifi); ok && succ == nilSucc {
+				for _, o := range append([]ssa.Value{x}, an.Origins(x)...) {
+					if isClose[o] {
+						return true, true
+					}
+				}
+			}
+			if x, tgt, trueSucc, ok := an.ErrIsTest(ifi); ok && succ == trueSucc && createErr != nil && an.IsGlobalLoad(tgt, r.TypesPath, "ErrBlobExists") {
+				for _, o := range append([]ssa.Value{x}, an.Origins(x)...) {
+					if o == createErr {
+						return true, true
+					}
+				}
+			}
+			return stored, true
+		}})
+	if bad {
+		return nil
+	}
+	memo[h] = st
+	return st
 }
 
 // isDig reports whether v is the digest of the site (or, for a merged site, one of its branch-local digests).
@@ -137,6 +278,9 @@ func hashSites(c *core.Ctx) []*hashSite {
 						_, args := an.CallArgs(c2)
 						if len(args) > 0 {
 							ss := structStores(args[0])
+							if len(ss) == 0 {
+								ss = literalStores(c, args[0]) // the entry built by a helper of the package
+							}
 							for _, dv := range ss["Digest"] {
 								if isDig(dv) {
 									hs.inserts = append(hs.inserts, c2)
@@ -169,6 +313,34 @@ func hashSites(c *core.Ctx) []*hashSite {
 						})
 					}
 				}
+				// store steps: the creation, writing and closing handed to a function of the module
+				an.Calls(fn, func(c2 ssa.CallInstruction) {
+					cc, ok := c2.(*ssa.Call)
+					if !ok {
+						return
+					}
+					step := storeStepOf(c, r, cc.Call.StaticCallee())
+					if step == nil || len(cc.Call.Args) != len(step.fn.Params) {
+						return
+					}
+					switch {
+					case step.digParam >= 0 && hs.create == nil && isDig(cc.Call.Args[step.digParam]):
+						hs.create, hs.stepCreate = cc, true
+					case step.sessParam >= 0 && hs.create != nil:
+						cv, isCall := hs.create.(*ssa.Call)
+						if so, idx := an.CallOf(an.Origin(cc.Call.Args[step.sessParam])); !isCall || so != cv || idx > 0 {
+							return
+						}
+						hs.closes = append(hs.closes, cc)
+					default:
+						return
+					}
+					hs.writes = append(hs.writes, cc)
+					if hs.writeArg == nil {
+						hs.writeArg = map[ssa.CallInstruction]ssa.Value{}
+					}
+					hs.writeArg[cc] = cc.Call.Args[step.bytesParam]
+				})
 				if hs.create != nil || len(hs.inserts) > 0 {
 					out = append(out, hs)
 				}
@@ -293,6 +465,9 @@ func runHashBytes(c *core.Ctx) {
 		okW := len(hs.writes) > 0
 		for _, w := range hs.writes {
 			_, args := an.CallArgs(w)
+			if wa, isStep := hs.writeArg[w]; isStep {
+				args = []ssa.Value{wa}
+			}
 			if len(args) == 0 || an.Origin(args[0]) != hs.bytes {
 				okW = false
 			}
@@ -505,7 +680,7 @@ func runContentFirst(c *core.Ctx) {
 				if s.errs[0] == an.EE {
 					s.stored = true
 				}
-				if hs.putHelper != nil && s.errs[0] == an.EN {
+				if (hs.putHelper != nil || hs.stepCreate) && s.errs[0] == an.EN {
 					s.stored = true // the helper returned without error: it stored the blob (its own obligation)
 				}
 				for k := 1; k < 4; k++ {
@@ -655,7 +830,7 @@ func init() {
 						if s.errs[0] == an.EE {
 							s.stored = true
 						}
-						if hs.putHelper != nil && s.errs[0] == an.EN {
+						if (hs.putHelper != nil || hs.stepCreate) && s.errs[0] == an.EN {
 							s.stored = true
 						}
 						for k := 1; k < 4; k++ {
